@@ -3,7 +3,9 @@ EXTENDS DocUpdate, Json
 W12  == {{1, 2}}
 W123 == {{1, 2, 3}}
 W2or3 == {{1, 2}, {1, 2, 3}}
-Conf == [allow |-> allow, n |-> initLen, tomb |-> initTomb, nw |-> Cardinality(ws)]
+Conf == [allow |-> allow, n |-> initLen, tomb |-> initTomb, nw |-> Cardinality(ws), ahead |-> aheadW]
+NoAhead == {{}}
+Ahead1 == {{1}}
 (* every complete behaviour (all writers returned, feed read) *)
 BehaviourExport == quiesced => PrintT(<<"BEH", ToJson([conf |-> Conf, steps |-> hist])>>)
 (* one witness behaviour per distinct final state in which a named deviation fired (replayed on the real code) *)
@@ -16,7 +18,7 @@ DevExport == (quiesced /\ dev # {}) => PrintT(<<"BEH", ToJson([conf |-> Conf, st
 LegalBegins == {kp \in Kinds \X (DOMAIN tree \cup {0}) : (kp[1] = "del" => kp[2] # 0) /\ (kp[1] = "push" /\ kp[2] = 0 => allow)}
 SimNext ==
   \/ \E w \in Writers : \/ LET kp == RandomElement(LegalBegins) IN Begin(w, kp[1], kp[2])
-                        \/ ReadAndCompute(w) \/ CasWrite(w) \/ Ack(w)
+                        \/ ReadAndCompute(w) \/ CasWrite(w) \/ Restamp(w) \/ Ack(w)
   \/ Quiesce
 SimSpec == Init /\ [][SimNext]_vars
 =============================================================================
